@@ -312,6 +312,12 @@ fn text_src(t: &str, ch: &mut Chooser, out: &mut String, gaps: &mut Vec<usize>, 
                 out.push(' ');
                 if !w.is_empty() {
                     gaps.push(out.len());
+                    // a block comment glued to the next word (the space before it survives)
+                    match ch.pick(3) {
+                        1 => out.push_str("[- c -]"),
+                        2 => out.push_str("[-- c --]"),
+                        _ => {}
+                    }
                 }
             }
         }
@@ -712,6 +718,12 @@ pub fn expected(r: &Recipe, cfg: Config) -> Result<XRecipe, String> {
                                 (v, c.kind == Kind::Igr && !is_text && !q.lock, q.unit.map(|u| u.to_string()))
                             });
                             if let Some(q) = &c.qty {
+                                if let Val::Text(t) = &q.val {
+                                    let digit_first = t.chars().next().map(|c| c.is_ascii_digit()).unwrap_or(false);
+                                    if digit_first && (q.unit.is_none() && cfg.extended || c.kind == Kind::Tm && cfg.extended) {
+                                        return Err("number followed by words without `%` (read as a unit by the advanced-units extension)".into());
+                                    }
+                                }
                                 if q.lock && (c.kind != Kind::Igr || matches!(q.val, Val::Text(_))) {
                                     return Err("scaling lock without effect (warning)".into());
                                 }
